@@ -45,10 +45,20 @@ fn generate(
     version_comment: bool,
 ) -> Result<Gen, (Stage, SlinkyError)> {
     let document = slinky::Document::read_file(yaml_path).map_err(|e| (Stage::Parse, e))?;
+    generate_doc(&document, opts, partial, version_comment)
+}
+
+// every in-memory output, from an already parsed document (which may be reused for several generations)
+fn generate_doc(
+    document: &slinky::Document,
+    opts: &[(String, String)],
+    partial: bool,
+    version_comment: bool,
+) -> Result<Gen, (Stage, SlinkyError)> {
     let rs = make_rs(opts, version_comment);
     if partial {
-        let mut w = slinky::PartialLinkerWriter::new(&document, &rs);
-        w.add_whole_document(&document)
+        let mut w = slinky::PartialLinkerWriter::new(document, &rs);
+        w.add_whole_document(document)
             .map_err(|e| (Stage::Generate, e))?;
         let joined = w
             .export_linker_script_to_string()
@@ -89,8 +99,8 @@ fn generate(
             symbols,
         })
     } else {
-        let mut w = slinky::LinkerWriter::new(&document, &rs);
-        w.add_whole_document(&document)
+        let mut w = slinky::LinkerWriter::new(document, &rs);
+        w.add_whole_document(document)
             .map_err(|e| (Stage::Generate, e))?;
         let script = w
             .export_linker_script_to_string()
@@ -365,8 +375,44 @@ fn main() {
                                 _ => same = false,
                             }
                         }
+                        // one parsed document reused: other options, these options, other options, these options again
+                        let mut reuse_same = true;
+                        if let Some(other) = req.get("reuse_opts").and_then(|v| v.as_array()) {
+                            let other: Vec<(String, String)> = other
+                                .iter()
+                                .filter_map(|p| {
+                                    let a = p.as_array()?;
+                                    Some((a.first()?.as_str()?.to_string(), a.get(1)?.as_str()?.to_string()))
+                                })
+                                .collect();
+                            let r = panic::catch_unwind(|| {
+                                let document = slinky::Document::read_file(&ypath).map_err(|e| (Stage::Parse, e))?;
+                                let _ = generate_doc(&document, &other, partial, version_comment);
+                                let a = generate_doc(&document, &opts, partial, version_comment)?;
+                                let _ = generate_doc(&document, &other, partial, version_comment);
+                                let b = generate_doc(&document, &opts, partial, version_comment)?;
+                                Ok::<(Gen, Gen), (Stage, SlinkyError)>((a, b))
+                            });
+                            match r {
+                                Ok(Ok((a, b))) => {
+                                    for x in [&a, &b] {
+                                        if x.script != g.script
+                                            || x.joined != g.joined
+                                            || x.partials != g.partials
+                                            || x.deps != g.deps
+                                            || x.header != g.header
+                                            || x.symbols != g.symbols
+                                        {
+                                            reuse_same = false;
+                                        }
+                                    }
+                                }
+                                _ => reuse_same = false,
+                            }
+                        }
                         json!({
                             "outcome": "ok",
+                            "reuse_same": reuse_same,
                             "script": g.script,
                             "joined": g.joined,
                             "partials": g.partials.iter().map(|(n, s)| json!([n, s])).collect::<Vec<_>>(),
